@@ -23,6 +23,7 @@ NAMES = ["MSG_A", "MSG_B", "DRAIN", "TIMER", "CANCEL0", "CANCEL1", "CLOSE", "SPA
 NE = len(NAMES)
 CFG = shard_int("CFG", 0)
 SH0 = shard_int("SH0", 0)
+SH1 = shard_int("SH1", -1)
 # per-call configuration: (types, accept kind, stop kind, timeout); kinds: 0 = None, 1 = key == parameter
 CONFIGS = [
     # call0, call1
@@ -234,6 +235,7 @@ def h11_4(e0: int, e1: int, e2: int, e3: int, k0: int, k1: int, k2: int, k3: int
 def h11_5(e0: int, e1: int, e2: int, e3: int, e4: int, k0: int, k1: int, k2: int, k3: int, k4: int, pa0: int, ps0: int, pa1: int, ps1: int) -> bool:
     """
     pre: e0 == SH0
+    pre: SH1 < 0 or e1 == SH1
     pre: 0 <= e1 < NE and 0 <= e2 < NE and 0 <= e3 < NE and 0 <= e4 < NE
     pre: 0 <= k0 < 4 and 0 <= k1 < 4 and 0 <= k2 < 4 and 0 <= k3 < 4 and 0 <= k4 < 4
     pre: 0 <= pa0 < 4 and 0 <= ps0 < 4 and 0 <= pa1 < 4 and 0 <= ps1 < 4
@@ -244,12 +246,16 @@ def h11_5(e0: int, e1: int, e2: int, e3: int, e4: int, k0: int, k1: int, k2: int
 
 def shards(tier: str) -> list:
     out = []
-    fn = "h11_4" if tier == "quick" else "h11_5"
     firsts = [MSG_A, MSG_B, TIMER, CANCEL0, CLOSE, SPAWN1]
     for cfg in range(len(CONFIGS)):
         for ev in firsts:
-            out.append({"fn": fn, "env": {"CFG": cfg, "SH0": ev}, "cond_timeout": 400 if tier == "quick" else 2400, "path_timeout": 60,
-                        "desc": f"predicate/type configuration {cfg}, first event {NAMES[ev]}, then {3 if tier == 'quick' else 4} symbolic events; symbolic message keys and predicate parameters"})
+            if tier == "quick":
+                out.append({"fn": "h11_4", "env": {"CFG": cfg, "SH0": ev}, "cond_timeout": 600, "path_timeout": 60,
+                            "desc": f"predicate/type configuration {cfg}, first event {NAMES[ev]}, then 3 symbolic events; symbolic message keys and predicate parameters"})
+            else:
+                for ev1 in range(NE):
+                    out.append({"fn": "h11_5", "env": {"CFG": cfg, "SH0": ev, "SH1": ev1}, "cond_timeout": 1500, "path_timeout": 60,
+                                "desc": f"predicate/type configuration {cfg}, events {NAMES[ev]}, {NAMES[ev1]}, then 3 symbolic events; symbolic message keys and predicate parameters"})
     return out
 
 
